@@ -253,6 +253,22 @@ func nttStub(inverse bool, lazy uint64) feStub {
 		for i := 0; i < n; i++ {
 			in[i] = x.feArg(p1.Obj.Cells[p1.Off+i], q)
 		}
+		// input ranges the lazy butterflies tolerate (C01 stage lemmas): the inverse transform keeps its [0, 2q)
+		// invariant only from inputs below 2q (values above double at every stage); the forward transform lets
+		// an input grow by at most 4q before its first conditional reduction
+		flagged := false
+		for i := 0; i < n && !flagged; i++ {
+			if inverse && in[i].Hi.Cmp(new(big.Int).SetUint64(2*q)) >= 0 {
+				flagged = true
+				x.addObligation(&Obligation{ID: "intt-input-below-2q", Kind: "range", Cond: x.ts.False,
+					Where: fmt.Sprintf("%s on a value with tracked upper bound %s >= 2q (q=%d): the lazy inverse butterflies wrap around 2^64", fn.Name(), in[i].Hi, q)})
+			}
+			if !inverse && new(big.Int).Add(in[i].Hi, new(big.Int).Mul(big.NewInt(4), new(big.Int).SetUint64(q))).Cmp(two64big) >= 0 {
+				flagged = true
+				x.addObligation(&Obligation{ID: "ntt-input-range", Kind: "range", Cond: x.ts.False,
+					Where: fmt.Sprintf("%s on a value with tracked upper bound %s (q=%d): input + 4q reaches 2^64", fn.Name(), in[i].Hi, q)})
+			}
+		}
 		for j := 0; j < n; j++ {
 			acc := newFEPoly(q)
 			for i := 0; i < n; i++ {
@@ -502,6 +518,26 @@ func init() {
 		riQ := x.ringInfoAll(rq, rqt, qs.Len-1)
 		riP := x.ringInfoAll(rp, rpt, levelP)
 		p1P := x.polyLimbs(args[4])
+		// input ranges the real ModDown tolerates: the P part goes through INTTLazy / AddScalarBigint+ModUpExact
+		// (below 2p), the Q part is the subtrahend of SubThenMulScalarMontgomeryTwoModulus (at most 2q)
+		for k, flagged := 0, false; k <= levelP && !flagged; k++ {
+			for i := 0; i < p1P[k].Len && !flagged; i++ {
+				if in := x.feArg(p1P[k].Obj.Cells[p1P[k].Off+i], riP.moduli[k]); in.Hi.Cmp(new(big.Int).SetUint64(2*riP.moduli[k])) >= 0 {
+					flagged = true
+					x.addObligation(&Obligation{ID: "moddown-input-P-below-2p", Kind: "range", Cond: x.ts.False,
+						Where: fmt.Sprintf("%s: P limb %d has tracked upper bound %s >= 2p (p=%d)", fn.Name(), k, in.Hi, riP.moduli[k])})
+				}
+			}
+		}
+		for k, flagged := 0, false; k <= levelQ && !flagged; k++ {
+			for i := 0; i < p1Q[k].Len && !flagged; i++ {
+				if in := x.feArg(p1Q[k].Obj.Cells[p1Q[k].Off+i], riQ.moduli[k]); in.Hi.Cmp(new(big.Int).SetUint64(2*riQ.moduli[k])) > 0 {
+					flagged = true
+					x.addObligation(&Obligation{ID: "moddown-input-Q-at-most-2q", Kind: "range", Cond: x.ts.False,
+						Where: fmt.Sprintf("%s: Q limb %d has tracked upper bound %s > 2q (q=%d)", fn.Name(), k, in.Hi, riQ.moduli[k])})
+				}
+			}
+		}
 		name := x.contentName("rnd", fmt.Sprintf("%d/%d", levelQ, levelP), append(append([]Slice(nil), p1Q[:levelQ+1]...), p1P[:levelP+1]...), append(append([]uint64(nil), riQ.moduli[:levelQ+1]...), riP.moduli[:levelP+1]...))
 		for k := 0; k <= levelQ; k++ {
 			q := riQ.moduli[k]
